@@ -133,8 +133,8 @@ Proof. exact toggle_twice. Qed.
 
 (** removing a pair whose contract self-destructed removes all three entries, touches nothing
     else, and afterwards no lookup reaches the pair, its denomination or its address *)
-Theorem C15_delete_all_three : forall t dead s s',
-  Inv s -> step (OpConvert t dead) s = (s', Ok) ->
+Theorem C15_delete_all_three : forall coin t dead s s',
+  Inv s -> step (OpConvert coin t dead) s = (s', Ok) ->
   exists p,
     lookup_tok s t = Some p /\ p_addr p ∈ dead /\
     s' = delete_pair p s /\
